@@ -125,6 +125,24 @@ Theorem C38_intern_terminates_weak_fairness : forall (progs : list (list str)) (
 Proof. exact terminates_weak_fairness_lemma. Qed.
 Print Assumptions C38_intern_terminates_weak_fairness.
 
+(* ---------------- the byte-slice entry points ---------------- *)
+
+(* InternBytes / QueryBytes on caller-owned buffers that the caller overwrites between calls
+   (BWrite, arbitrary content, arbitrary positions in the history) answer exactly like
+   Intern / Query on the content each buffer had when the call was made; so every clause above
+   carries over to histories through the byte-slice entry points with buffer reuse *)
+Theorem C38_bytes_entry_points_snapshot : forall ops hp ix lg,
+  run_bops hp ix lg ops = run_ops ix lg (resolve_bops hp ops).
+Proof. exact bytes_snapshot_lemma. Qed.
+Print Assumptions C38_bytes_entry_points_snapshot.
+
+(* overwriting the buffer after InternBytes returned changes no later answer *)
+Theorem C38_bytes_write_after_call_unobservable : forall hp ix lg b s ops,
+  (forall o, In o ops -> match o with BOp _ => True | _ => False end) ->
+  run_bops hp ix lg (BInternBytes b :: BWrite b s :: ops) = run_bops hp ix lg (BInternBytes b :: ops).
+Proof. exact bytes_write_after_call_lemma. Qed.
+Print Assumptions C38_bytes_write_after_call_unobservable.
+
 (* ---------------- non-vacuity ---------------- *)
 
 (* the encoding does something *)
@@ -149,3 +167,12 @@ Proof. exact example_contention. Qed.
 Example C38_nonvacuous_fair :
   forall t, (t < 2)%nat -> forall k, exists m, (k <= m)%nat /\ Nat.modulo m 2 = t.
 Proof. exact example_fair. Qed.
+
+(* InternBytes of a buffer, the caller scribbles over it: the original string is still present
+   with its id and Value gives it back; the scribbled content is a different, absent string *)
+Example C38_nonvacuous_bytes :
+  let ops := [BWrite 0 ex_key; BInternBytes 0; BWrite 0 [120;120;120;120;120;120;120;120]%N;
+              BOp (OQuery ex_key); BOp (OIntern ex_key); BOp (OValue 1); BQueryBytes 0; BInternBytes 0] in
+  snd (run_bops heap_empty idx_empty [] ops) =
+  [RIntern 1; RQuery 1 true; RIntern 1; RValue (Some ex_key); RQuery 0 false; RIntern 2].
+Proof. exact example_bytes. Qed.
